@@ -16,7 +16,7 @@ def register(reg):
     A("ConfigTypeField", config_type="cls:ConfigType")
     A("Schema", _dynamic="bool", _fields="rep:dict:1", _env_prefix=ENV, _validators="rep:list:2")
     A("Config", _schema="ref:Schema", _parent="opt:ref:Config", _container="opt:ref:ContainerValueMixin", _data="rep:dict:3",
-      _fields="rep:dict:4", _key="str", _Config__keyfile="opt:ref:KeyFile", _default_value_keys="rep:set:5")
+      _fields="rep:dict:4", _key="str", _Config__keyfile="opt:ref:KeyFile", _Config__default_keyfile="opt:ref:KeyFile", _default_value_keys="rep:set:5")
     A("ConfigType", __schema__="ref:Schema", __key_filename__="opt:str")
     A("ValidationError", config="any", field="any", exc="any", _ref_path="opt:str")
     A("ListField", field="any")
